@@ -2,9 +2,11 @@
 # Re-validates every stored seeded change against the current /repo HEAD and runs the owning property's quick check on it.
 # Output: /verif/seeded/RESULTS.md   (usage: tools/seedmatrix.sh [--with-suite]); works in its own worktree, /repo is only read
 cd /verif
-OUT=/verif/seeded/RESULTS.md
+# MATRIX_SHARD=i/n runs every n-th seed (starting with the i-th) and writes RESULTS.<i>.md; tools/seedmatrix_merge.sh joins the parts
+SH_I=${MATRIX_SHARD%%/*}; SH_N=${MATRIX_SHARD##*/}
+OUT=/verif/seeded/RESULTS${MATRIX_SHARD:+.$SH_I}.md
 HEAD=$(git -C /repo rev-parse --short HEAD)
-WT=/tmp/wt/matrix
+WT=/tmp/wt/matrix${MATRIX_SHARD:+_$SH_I}
 git -C /repo worktree remove --force $WT 2>/dev/null
 git -C /repo worktree add -q --detach $WT HEAD
 {
@@ -13,7 +15,10 @@ echo
 echo "| seed | property | applies | demo unchanged | demo changed | pinned suite with change | quick check verdict | first new signature |"
 echo "|---|---|---|---|---|---|---|---|"
 } > $OUT
+idx=0
 for d in /verif/seeded/C*/; do
+  idx=$((idx+1))
+  if [ -n "${MATRIX_SHARD:-}" ] && [ $((idx % SH_N)) -ne $((SH_I % SH_N)) ]; then continue; fi
   s=$(basename $d); P=${s%%_*}
   git -C $WT checkout -q -- . ; 
   if ! git -C $WT apply --check $d/patch.diff 2>/dev/null; then echo "| $s | $P | NO (conflicts with later fix) | - | - | - | - | - |" >> $OUT; continue; fi
